@@ -117,6 +117,25 @@ def rand_spec(r, wellformed=False, relations=None, focus=None):
                 p_["default"] = {"bool": "true", "double": "1.5", "float": "0.5f", "char": "'c'"}.get(p_["type"], "0")
             ops.append(dict(name=verb, ret="void", params=ps, virtual=False, static=False, const=False, vis="public", doc=""))
         classes.append(dict(name=cn, ns=r.choice(NSS), kind="class", doc="", attrs=[], ops=ops, literals=[]))
+    constpair = None
+    if focus == "constpair":
+        # an interface declaring two operations that differ in nothing but constness (Get(int) / Get(int) const - two pure
+        # virtual functions in C++), realised by a class, directly or through an interface extending it
+        iname = _ident(r, WORDS, taken, "I")
+        verb = r.choice(VERBS)
+        types = [r.choice(PRIM) for _ in range(r.randint(0, 2))]
+        ret = r.choice(["void", "int", "bool"])
+        ops = [dict(name=verb, ret=ret, params=[dict(name="p%d" % i, type=t, direction="in") for i, t in enumerate(types)],
+                    virtual=True, static=False, const=k, vis="public", doc="") for k in r.choice([(False, True), (True, False)])]
+        classes.append(dict(name=iname, ns=r.choice(NSS), kind="interface", doc="", attrs=[], ops=ops, literals=[]))
+        chain = [len(classes) - 1]
+        if r.random() < 0.4:
+            classes.append(dict(name=_ident(r, WORDS, taken, "I"), ns=r.choice(NSS), kind="interface", doc="", attrs=[], literals=[],
+                                ops=[dict(name="Poll", ret="int", params=[], virtual=True, static=False, const=False, vis="public", doc="")]))
+            chain.append(len(classes) - 1)
+        classes.append(dict(name=_ident(r, WORDS, taken, "C"), ns=r.choice(NSS), kind="class", doc="", attrs=[], ops=[], literals=[]))
+        chain.append(len(classes) - 1)
+        constpair = chain
     twins = None
     if focus == "twins":
         # two elements with the same unqualified name in different packages, one referring to the other (only meaningful with
@@ -129,6 +148,9 @@ def rand_spec(r, wellformed=False, relations=None, focus=None):
     spec = dict(diagram="Synth" + r.choice(["", "A", "B"]), classes=classes, inherits=[], assocs=[])
     if twins:
         spec["inherits"].append(dict(frm=twins[0], to=twins[1], realization=True))
+    if constpair:
+        for b, d in zip(constpair, constpair[1:]):
+            spec["inherits"].append(dict(frm=b, to=d, realization=True))
     if relations if relations is not None else r.random() < 0.5:
         add_relations(r, spec, wellformed)
         add_typed_members(r, spec)
